@@ -325,6 +325,10 @@ subroutine k(n, i1, s)
   case (3, 4)
   case (5:6)
     s = 3.0
+  case (7)
+    ! nothing to do for 7 (a body that consists of a comment only)
+  case (8)
+    s = 8.0
   case default
     s = -1.0
   end select
